@@ -83,3 +83,31 @@ class Widening(Transform):
 
     def inverse(self, inputs, context=None):
         return inputs * self.bound, inputs.new_zeros(inputs.shape[0])
+
+
+class ModeFlip(Transform):
+    def __init__(self, net):
+        super().__init__()
+        self.net = net
+
+    def inverse(self, inputs, context=None):
+        self.net.eval()
+        outputs = self.net(inputs)
+        self.net.train()
+        return outputs, inputs.new_zeros(inputs.shape[0])
+
+
+_GRID = {}
+
+
+def _grid(num, like):
+    if num not in _GRID:
+        _GRID[num] = torch.linspace(0, 1, num, dtype=like.dtype, device=like.device)
+    return _GRID[num]
+
+
+class Clip(Transform):
+    def forward(self, inputs, context=None):
+        eps = torch.finfo(inputs.dtype).eps
+        outputs = torch.log(torch.clamp(inputs, eps, 1 - eps))
+        return outputs, -outputs.sum(-1)
